@@ -212,6 +212,8 @@ pub fn seq_campaigns(property: &str) -> Vec<SeqCampaign> {
         "C01" => vec![
             main("seq-main", 3000, 60_000, nt_c01, RULE_C01),
             probe("probe-F5", profile("C01"), Policy { allow_over_limit_upsert: true, ..Policy::default() }),
+            SeqCampaign { name: "seq-after-overshoot", params: profile("C01"), policy: Policy { allow_over_limit_upsert: true, note_over_limit: true, ..Policy::default() }, cases_quick: 2000, cases_thorough: 30_000, nt: |s| s.max_used_permille > 1000 && (s.evictions + s.rejected_space) >= 1,
+                rule: "as seq-main, but weight-raising upserts are generated too: the breach of the bound they cause (recorded finding F5) is noted - it is reported as that finding at the end of the case - and the history carries on: from negative free space every accepted put must still leave the total at or below the limit (admission evicts until the deficit and the new weight are covered) and the accounting must stay exact; non-trivial = the weight in use exceeded the limit at some point and a later put needed eviction or was refused for space" },
         ],
         "C02" => vec![main("seq-read-agreement", 3000, 50_000, nt_c02, "generated histories with many reads: every read variant is compared with the model after every write, all seven variants are applied to the same keys at quiescent points (they must agree), and multi_get iterators are consumed step by step with an awaited write to the next key between two next() calls (each next() must reflect the state at the time it is called); non-trivial = an iterator step after an intervening write and >= 3 hits")],
         "C03" => vec![main("seq-main", 2500, 50_000, nt_c03, RULE_C03)],
@@ -232,15 +234,15 @@ pub fn seq_campaigns(property: &str) -> Vec<SeqCampaign> {
             main("seq-main", 4000, 80_000, nt_c08, RULE_C08),
             probe("probe-F7", profile("C08"), Policy { allow_upsert_on_dead_entry: true, ..Policy::default() }),
         ],
-        "C09" => vec![main("seq-main", 4000, 80_000, nt_c09, RULE_C09), SeqCampaign { name: "seq-upsert-expired", params: profile("C09"), policy: Policy { allow_upsert_on_dead_entry: true, ..Policy::default() }, cases_quick: 2000, cases_thorough: 30_000, nt: |s| s.upserts_in_place >= 2 && s.swept_keys >= 1,
+        "C09" => vec![main("seq-main", 4000, 80_000, nt_c09, RULE_C09), SeqCampaign { name: "seq-upsert-expired", params: { let mut params = profile("C09"); params.expired_write = 12; params }, policy: Policy { allow_upsert_on_dead_entry: true, ..Policy::default() }, cases_quick: 2000, cases_thorough: 30_000, nt: |s| s.upserts_in_place >= 2 && s.swept_keys >= 1,
                 rule: "as seq-main, but put_or_update is also generated for keys that are past their time-to-live and not yet swept, or deleted with the delete still queued (the loss of such an upsert, known finding F7 of C08, is noted and does not end the case): an upsert that gives such a key a new time-to-live makes it readable again until the new deadline, and the sweep of the old deadline must not remove it; non-trivial = >= 2 in-place upserts and a sweep that removed a key" }],
         "C10" => vec![
             main("seq-main", 1500, 30_000, nt_c10, RULE_C10),
             SeqCampaign { name: "seq-mass-expiry", params: profile("C10-mass-expiry"), policy: Policy::default(), cases_quick: 300, cases_thorough: 4000, nt: |s| s.swept_keys >= 33,
                 rule: "histories that fill the cache with 10-70 light TTL keys per step (up to ~130 keys, 2 or 4 expiry shards), then advance the clock and rotate through the shards: dozens of keys expire in one sweep; same oracles as seq-main; non-trivial = at least 33 keys were removed by sweeps" },
-            SeqCampaign { name: "seq-reput-expired", params: profile("C10"), policy: Policy { allow_put_on_expired_unswept: true, ..Policy::default() }, cases_quick: 1500, cases_thorough: 20_000, nt: |s| s.swept_keys >= 1 && s.puts_on_used_key >= 1,
+            SeqCampaign { name: "seq-reput-expired", params: { let mut params = profile("C10"); params.expired_write = 12; params }, policy: Policy { allow_put_on_expired_unswept: true, ..Policy::default() }, cases_quick: 1500, cases_thorough: 20_000, nt: |s| s.swept_keys >= 1 && s.puts_on_used_key >= 1,
                 rule: "as seq-main, but puts of keys that are past their time-to-live and not yet swept are generated too (their refusal, known finding F6 of C07, is noted and does not end the case): a re-put that is accepted must survive the sweep of the old incarnation; non-trivial = a sweep removed a key and a previously written key was put again" },
-            SeqCampaign { name: "seq-upsert-expired", params: profile("C09"), policy: Policy { allow_upsert_on_dead_entry: true, ..Policy::default() }, cases_quick: 2000, cases_thorough: 30_000, nt: |s| s.upserts_in_place >= 2 && s.swept_keys >= 1,
+            SeqCampaign { name: "seq-upsert-expired", params: { let mut params = profile("C09"); params.expired_write = 12; params }, policy: Policy { allow_upsert_on_dead_entry: true, ..Policy::default() }, cases_quick: 2000, cases_thorough: 30_000, nt: |s| s.upserts_in_place >= 2 && s.swept_keys >= 1,
                 rule: "as seq-main, but put_or_update is also generated for keys that are past their time-to-live and not yet swept, or deleted with the delete still queued (the loss of such an upsert, known finding F7 of C08, is noted and does not end the case): an upsert that gives such a key a new time-to-live makes it readable again until the new deadline, and the sweep of the old deadline must not remove it; non-trivial = >= 2 in-place upserts and a sweep that removed a key" },
         ],
         "C11" => vec![main("seq-bursts", 3000, 50_000, nt_c11, RULE_C11)],
